@@ -35,9 +35,15 @@ def documentedTable : Table :=
     eofCheck := true }
 
 /-- Well-formedness of an operator table: the levels are pairwise disjoint and none of them
-contains the one-shot operators `~`, `=` or punctuation that delimits expressions. -/
+contains the one-shot operators `~`, `=` or punctuation that delimits expressions (closing
+brackets, the comma, and the two postfix openers `(` of a call and `[` of `name[level]`); a prefix
+operator is, in addition, not a token that starts a primary expression. -/
 def closers : List Kind := [.RIGHT_PAREN, .RIGHT_BRACKET, .RIGHT_BRACE, .COMMA, .EQUAL, .TILDE,
-  .LEFT_PAREN]
+  .LEFT_PAREN, .LEFT_BRACKET]
+
+/-- Token kinds with which `primary` starts an expression. -/
+def starters : List Kind := [.IDENTIFIER, .NUMBER, .STRING, .PYTHON_LITERAL, .BQNAME, .LEFT_PAREN,
+  .LEFT_BRACE]
 
 def disjointLevels : List (List Kind) → Bool
   | [] => true
@@ -49,7 +55,8 @@ def levelsOK (T : Table) : Bool :=
 
 def TableWF (T : Table) : Bool :=
   levelsOK T && T.levels.all (fun ops => ops.all (fun k => !closers.contains k))
-  && T.unaryOps.all (fun k => !closers.contains k) && T.tildeRight ≤ T.levels.length
+  && T.unaryOps.all (fun k => !closers.contains k && !starters.contains k)
+  && T.tildeRight ≤ T.levels.length
 
 section
 variable (T : Table)
@@ -150,5 +157,90 @@ def ungroupArgs : Args → Args
   | .last e => .last (ungroup e)
   | .more e c rest => .more (ungroup e) c (ungroupArgs rest)
 end
+
+
+/-! ### Scanner: layout of a formula string
+
+The reading of "whitespace between tokens never changes the model" and "unterminated quotes are
+rejected": a formula text is a sequence of token spellings (`Lexeme`) separated by gaps of
+whitespace (`render`); a layout is admissible when every gap is whitespace and an empty gap is used
+only where the next character does not merge with the token before it (`sepOk`). -/
+namespace Layout
+open FormulaeModel.Scanner
+
+/-- Which character may directly follow a token of kind `k` without changing how it is scanned
+(identifier/number followed by an identifier character, a digit or `.`; the two-character
+operators `**`, `//`, `==`, `!=`, `<=`, `>=`; `.` followed by a digit).  Slightly conservative for
+numbers: `1.x` would scan as `1`, `.`, `x`, but a `.` directly after a number is not admitted. -/
+def sepOk (k : Kind) : List Char → Bool
+  | [] => true
+  | c :: _ =>
+    match k with
+    | .IDENTIFIER | .PYTHON_LITERAL => !isIdChar c
+    | .NUMBER => !c.isDigit && c != '.'
+    | .PERIOD => !c.isDigit
+    | .SLASH => c != '/'
+    | .STAR => c != '*'
+    | .BANG | .EQUAL | .LESS | .GREATER => c != '='
+    | _ => true
+
+/-- The operator and punctuation tokens with their only spelling. -/
+def fixedLexemes : List (Kind × List Char) :=
+  [(.LEFT_PAREN, ['(']), (.RIGHT_PAREN, [')']), (.LEFT_BRACKET, ['[']), (.RIGHT_BRACKET, [']']),
+   (.LEFT_BRACE, ['{']), (.RIGHT_BRACE, ['}']), (.COMMA, [',']), (.PERIOD, ['.']), (.PLUS, ['+']),
+   (.MINUS, ['-']), (.SLASH_SLASH, ['/', '/']), (.SLASH, ['/']), (.STAR_STAR, ['*', '*']), (.STAR, ['*']),
+   (.BANG_EQUAL, ['!', '=']), (.BANG, ['!']), (.EQUAL_EQUAL, ['=', '=']), (.EQUAL, ['=']),
+   (.LESS_EQUAL, ['<', '=']), (.LESS, ['<']), (.GREATER_EQUAL, ['>', '=']), (.GREATER, ['>']),
+   (.MODULO, ['%']), (.TILDE, ['~']), (.COLON, [':']), (.PIPE, ['|'])]
+
+/-- The spellings of a token of kind `k` that the scanner produces. -/
+inductive Lexeme : Kind → List Char → Prop
+  | fixed (k : Kind) (cs : List Char) (h : (k, cs) ∈ fixedLexemes) : Lexeme k cs
+  | numInt (c : Char) (ds : List Char) (hc : c.isDigit = true) (hds : ∀ d ∈ ds, d.isDigit = true) :
+      Lexeme .NUMBER (c :: ds)
+  | numFloat (c : Char) (ds : List Char) (f : Char) (fs : List Char) (hc : c.isDigit = true)
+      (hds : ∀ d ∈ ds, d.isDigit = true) (hf : f.isDigit = true) (hfs : ∀ d ∈ fs, d.isDigit = true) :
+      Lexeme .NUMBER (c :: ds ++ '.' :: f :: fs)
+  | numDot (f : Char) (fs : List Char) (hf : f.isDigit = true) (hfs : ∀ d ∈ fs, d.isDigit = true) :
+      Lexeme .NUMBER ('.' :: f :: fs)
+  | ident (c : Char) (body : List Char) (hc : c.isAlpha = true) (hb : ∀ d ∈ body, isIdChar d = true)
+      (hpy : pyLiterals.contains (String.ofList (c :: body)) = false) : Lexeme .IDENTIFIER (c :: body)
+  | pyLit (c : Char) (body : List Char) (hc : c.isAlpha = true) (hb : ∀ d ∈ body, isIdChar d = true)
+      (hpy : pyLiterals.contains (String.ofList (c :: body)) = true) : Lexeme .PYTHON_LITERAL (c :: body)
+  | str (q : Char) (body : List Char) (q' : Char) (hq : isQuote q = true) (hq' : isQuote q' = true)
+      (hb : ∀ d ∈ body, isQuote d = false) : Lexeme .STRING (q :: body ++ [q'])
+  | bq (body : List Char) (hb : ∀ d ∈ body, d ≠ '`') : Lexeme .BQNAME ('`' :: body ++ ['`'])
+
+/-- A token spelling together with the whitespace in front of it. -/
+structure Piece where
+  gap : List Char
+  kind : Kind
+  chars : List Char
+
+def Piece.tok (p : Piece) : Token := Scanner.mk p.kind p.chars
+
+/-- The text: gap, lexeme, gap, lexeme, …, trailing gap. -/
+def render : List Piece → List Char → List Char
+  | [], trail => trail
+  | p :: ps, trail => p.gap ++ (p.chars ++ render ps trail)
+
+/-- Admissible layout: gaps consist of whitespace, lexemes are spellings of their kinds, and what
+follows a lexeme (the next gap if non-empty, else the next lexeme) does not merge with it. -/
+def Admissible : List Piece → List Char → Prop
+  | [], trail => ∀ c ∈ trail, isWs c = true
+  | p :: ps, trail =>
+    (∀ c ∈ p.gap, isWs c = true) ∧ Lexeme p.kind p.chars ∧ sepOk p.kind (render ps trail) = true ∧
+      Admissible ps trail
+
+/-- Outside the modelled alphabet (`scan` answers `.nonAscii`, "not modelled"). -/
+def nonAscii (c : Char) : Bool := decide (c.toNat ≥ 128)
+
+/-- `r` is reached from `cs` by complete `scan_token` steps: `r` starts at a token boundary. -/
+inductive Boundary : List Char → List Char → Prop
+  | here (cs : List Char) : Boundary cs cs
+  | step {cs cs' r : List Char} {t : Option Token} :
+      scanToken cs = .ok (t, cs') → Boundary cs' r → Boundary cs r
+
+end Layout
 
 end FormulaeModel.Spec.C01
